@@ -24,7 +24,7 @@ MODEL_THOROUGH = [
     ("full_lru2", "Spec", E3, 2, 1, 1, "{}", "FALSE", "PlansCore", ""),
     ("por_cancel", "SpecPOR", E3, 2, 2, 1, '{"e2"}', "TRUE", "PL2", ""),
     ("two_lru2", "Spec", E2, 2, 2, 1, '{"e2"}', "FALSE", "PlansSmall4", ""),
-    ("two_batches", "Spec", E2, 1, 2, 1, "{}", "TRUE", "PS4", ""),
+    ("two_batches", "Spec", E2, 1, 1, 1, "{}", "TRUE", "PS4", ""),
     ("live_three", "FairSpecPOR", E3, 1, 1, 1, "{}", "TRUE", "PlansCore", "Terminates"),
 ]
 
@@ -59,7 +59,7 @@ KEYS = {
     "ResultMetaMismatch": ("result-meta-mismatch", "rows were decoded with result metadata that does not belong to the executed id"),
     "CapExceeded": ("cap-exceeded", "the prepared-statement cache exceeded its configured size"),
     "WaiterNotWoken": ("waiter-not-woken", "an executor waiting on an answered PREPARE never returned"),
-    "Panic": ("executor-panic", "executing with a wrong number of values panicked instead of returning an error"),
+    "Panic": ("executor-panic", "an execution panicked inside the driver instead of returning a result or an error"),
 }
 
 
@@ -101,6 +101,16 @@ def translate(plan, steps, name, n, maxlru, uniq):
     hosts = max(int(p["conn"][0][1:]) for p in plan.values())
     conns = 2 if any(p["conn"][1] == "k2" for p in plan.values()) else 1
     idx = [i for i, (a, st) in enumerate(steps) if a["a"] in CMDS]
+    # progress counters the projection of the state does not show: lookups per executor, remove(key) of failed flights
+    looks, failed, removes, prog = collections.Counter(), set(), 0, []
+    for a, st in steps:
+        if a["a"] in ("Start", "Lookup"):
+            looks[str(emap[a["e"]])] += 1
+        elif a["a"] == "PrepFail":
+            failed.add(a["f"])
+        elif a["a"] == "Done" and a["f"] in failed:
+            removes += 1
+        prog.append((dict(looks), removes))
     out = []
     for j, i in enumerate(idx):
         end = (idx[j + 1] - 1) if j + 1 < len(idx) else len(steps) - 1
@@ -109,7 +119,8 @@ def translate(plan, steps, name, n, maxlru, uniq):
             break
         done = _fix(st["done"])
         exp = dict(prep=sorted(st["prep"]), pf=sorted(st["pf"]), exec=sorted(emap[e] for e in st["exec"]),
-                   pe=sorted(emap[e] for e in st["pe"]), done={str(emap[e]): RES[r] for e, r in done.items()}, len=st["len"])
+                   pe=sorted(emap[e] for e in st["pe"]), done={str(emap[e]): RES[r] for e, r in done.items()}, len=st["len"],
+                   looks=prog[end][0], removes=prog[end][1])
         c = dict(a=a["a"], e=emap.get(a["e"], 0), f=a["f"], key=[], kind=a["kind"], exp=exp)
         if a["a"] == "Forget":
             c["key"] = [a["k"][0], KS[a["k"][1]], a["k"][2]]
